@@ -2120,7 +2120,8 @@ theorem buildRhs'_eq_tail (cfg : Cfg') (sys : Sys) :
 theorem buildTail'_ok {cfg : Cfg'} {sys : Sys} {keys : List String} {o : OdeSys'} (h : buildTail' cfg sys keys = .ok o) :
     ∃ rs exprs, resolveAll (mkVars sys.subst keys cfg.paramExprs) sys.rxns = some rs ∧
       readAll (sysRates (lookup (mkVars sys.subst keys cfg.paramExprs)) rs none (cstrOf cfg.cstr sys.subst)) sys.subst = some exprs ∧
-      o = { names := sys.subst, paramNames := keys, exprs := exprs } := by
+      o = { names := sys.subst, paramNames := keys, exprs := exprs } ∧
+      ∀ k ∈ cstrNeeded (cstrOf cfg.cstr sys.subst), dmem (mkVars sys.subst keys cfg.paramExprs) k = true := by
   unfold buildTail' at h
   dsimp only at h
   split at h
@@ -2133,12 +2134,13 @@ theorem buildTail'_ok {cfg : Cfg'} {sys : Sys} {keys : List String} {o : OdeSys'
   · cases h
   next rs hrs =>
   split at h
-  · split at h
+  next h6 =>
+    split at h
     · cases h
     next exprs hex =>
     split at h
     · cases h
-    · exact ⟨rs, exprs, hrs, hex, by cases h; rfl⟩
+    · exact ⟨rs, exprs, hrs, hex, by cases h; rfl, fun k hk => (List.all_eq_true.mp h6) k hk⟩
   · cases h
 
 /-- **user-supplied symbol dictionaries of `_create_odesys`**:
@@ -2177,13 +2179,77 @@ theorem user_symbols_spec (u : UCfg') (sys : Sys) (hnd : sys.subst.Nodup) (env :
         · simp [hsk, hks] at h
     replace h := h'
     · skip
-      obtain ⟨rs, exprs, hrs, hread, ho⟩ := buildTail'_ok h
+      obtain ⟨rs, exprs, hrs, hread, ho, _⟩ := buildTail'_ok h
       subst ho
       obtain ⟨hl, hi⟩ := core_spec _ sys.rxns rs sys.subst _ exprs (cstrOf_nodup hnd) hrs hread env
       refine ⟨rfl, rfl, hl, ?_⟩
       intro i s hs
       obtain ⟨e, he, hev⟩ := hi i s hs
       exact ⟨e, he, by rw [hev, feedVal_cstrOf _ env u.cfg.cstr (List.mem_of_getElem? hs)]⟩
+
+theorem buildRhs'U_tail {u : UCfg'} {sys : Sys} {keys : List String} {o : OdeSys'} (hp : u.paramKeys = some (true, keys))
+    (h : buildRhs'U u sys = .ok o) : buildTail' u.cfg sys keys = .ok o := by
+  unfold buildRhs'U at h
+  cases hsk : u.substKeys with
+  | none => simpa [hsk, hp] using h
+  | some ks =>
+    by_cases hks : ks = sys.subst
+    · simpa [hsk, hp, hks] using h
+    · simp [hsk, hks] at h
+
+/-- user-supplied `parameter_symbols`, in the user's terms: under the no-capture hypothesis the right-hand sides are `Nᵀ·r` of
+    the user's data (own constants, own concentrations), whatever keys the user chose to expose -/
+theorem rhs'U_explicit (u : UCfg') (sys : Sys) (keys : List String) (o : OdeSys') (hnd : sys.subst.Nodup)
+    (hsub : (dkeys u.cfg.paramExprs).Nodup) (hp : u.paramKeys = some (true, keys)) (h : buildRhs'U u sys = .ok o)
+    (hnc : noCapture sys (dkeys u.cfg.paramExprs) u.cfg.cstr = true) (hkeys : ∀ k ∈ keys, k ∉ sys.subst)
+    (env : String → R)
+    (hbind : ∀ r ∈ sys.rxns, ∀ uk k, r.param = .named uk k → uk ∉ dkeys u.cfg.paramExprs → uk ∈ keys → env uk = algebraMap ℚ R k) :
+    o.names = sys.subst ∧ o.paramNames = keys ∧ o.exprs.length = sys.subst.length ∧
+      ∀ (i : ℕ) (s : String), sys.subst[i]? = some s → ∃ e, o.exprs[i]? = some e ∧
+        ev env e = kineticRhs u.cfg.paramExprs u.cfg.cstr env sys.rxns s := by
+  obtain ⟨hreacN, hukN, hsubsN, hcsN, hukC⟩ := (noCapture_iff _ _ _).mp hnc
+  obtain ⟨rs, exprs, hrs, hread, ho, hneed⟩ := buildTail'_ok (buildRhs'U_tail hp h)
+  subst ho
+  obtain ⟨hl, hi⟩ := core_spec _ sys.rxns rs sys.subst _ exprs (cstrOf_nodup hnd) hrs hread env
+  have hspec := resolveAll_spec (R := R) _ env "" sys.rxns rs hrs
+  refine ⟨rfl, rfl, hl, ?_⟩
+  intro i s hs
+  obtain ⟨e, he, hev⟩ := hi i s hs
+  refine ⟨e, he, ?_⟩
+  have hmem : s ∈ sys.subst := List.mem_of_getElem? hs
+  rw [hev, feedVal_cstrOf _ env u.cfg.cstr hmem]
+  unfold kineticRhs
+  congr 1
+  · congr 1
+    apply List.map_congr_left
+    intro r hr
+    rw [rateVal_explicit sys.subst keys u.cfg.paramExprs hsub env r (hreacN r hr) hsubsN
+      (fun uk huk => hukN uk (mem_oriUk.mpr ⟨r, hr, huk⟩)) (fun uk k hp' hns hk => hbind r hr uk k hp' hns hk) (hspec.2.2 r hr).1]
+  · by_cases hc : u.cfg.cstr = true
+    · have hneed' : ∀ k ∈ cstrNeeded (cstrOf true sys.subst), dmem (mkVars sys.subst keys u.cfg.paramExprs) k = true := by
+        simpa [hc] using hneed
+      obtain ⟨m1, m2, m3⟩ := mem_cstrNeeded hmem
+      rw [if_pos hc, if_pos hc, cval_eq_pval _ _ _ hsub env (hneed' _ m1), cval_eq_pval _ _ _ hsub env (hneed' _ m2),
+        cval_eq_pval _ _ _ hsub env (hneed' _ m3), pval_of_not_subs u.cfg.paramExprs env (fun hk => hsubsN s hk hmem)]
+    · rw [if_neg hc, if_neg hc]
+
+/-- a plain-dict `substance_symbols`: only the KEY SET matters -/
+theorem buildRhs'P_plain (u : UCfg') (ks : List String) (sys : Sys) :
+    ((∀ k ∈ sys.subst, k ∈ ks) → buildRhs'P u (some ks) sys = buildRhs'U u sys) ∧
+    (¬ (∀ k ∈ sys.subst, k ∈ ks) → ∀ o, buildRhs'P u (some ks) sys ≠ .ok o) ∧ buildRhs'P u none sys = buildRhs'U u sys := by
+  refine ⟨?_, ?_, rfl⟩
+  · intro hall
+    have : (sys.subst.all fun k => decide (k ∈ ks)) = true := by simpa using hall
+    simp [buildRhs'P, this]
+  · intro hnot o
+    have : (sys.subst.all fun k => decide (k ∈ ks)) = false := by
+      cases hb : (sys.subst.all fun k => decide (k ∈ ks))
+      · rfl
+      · exact absurd (by simpa using hb) hnot
+    simp only [buildRhs'P, this, Bool.false_eq_true, if_false]
+    cases hb : buildRhs'U u sys with
+    | ok a => simp
+    | error e => cases e <;> simp
 
 end General
 
